@@ -37,7 +37,7 @@ theorem onEntered_frame (O : Oracle) (ch : Chan) (frm : Option Label) (to : Labe
   · split <;> exact ⟨rfl, rfl, rfl, rfl⟩
 
 theorem onEntered_ann (O : Oracle) (ch : Chan) (cur : List Label) (to : Label) (h : Ann O ch cur)
-    (hf : (onEntered O ch cur.head? to).failed = none) (h0 : ch.failed = none) :
+    (hf : (onEntered O ch cur.head? to).failed = none) (_h0 : ch.failed = none) :
     Ann O (onEntered O ch cur.head? to) (to :: cur) ∧ (onEntered O ch cur.head? to).failed = none := by
   refine ⟨?_, hf⟩
   unfold onEntered at hf ⊢
@@ -442,5 +442,65 @@ theorem create_sim (O1 O2 : Oracle) (q1 : Quiet O1) (q2 : Quiet O2) (name pid : 
         subscribe (erase (announce O2 { pid := pid } [] (PMF.init name).entered.reverse)) := rfl
     rw [e1, e2, a1.2, a2.2]
   · simpa [subscribe] using a1.1
+
+/-! ### the process id never changes -/
+
+theorem settle_pid (O : Oracle) (old : List Label) (ch : Chan) (p' : PMF.Cfg) : (settle O old ch p').pid = ch.pid := by
+  have hfr := announce_frame O (newSince old p'.entered) ch old
+  unfold settle
+  dsimp only
+  split
+  · exact hfr.1
+  · split
+    · rw [(runCleanups_facts _).2.2.1]; exact hfr.1
+    · exact hfr.1
+
+theorem step_pid (O : Oracle) (P : Prog) (c : Cfg) (ev : Ev) : (step O P c ev).1.ch.pid = c.ch.pid := by
+  unfold step
+  split
+  · rfl
+  · cases ev with
+    | pm e => exact settle_pid ..
+    | status => rfl
+    | rpc w => dsimp only; split <;> rfl
+    | bcast s =>
+      dsimp only
+      split
+      · rfl
+      · split <;> rfl
+    | recv id =>
+      dsimp only
+      split
+      · rfl
+      · split
+        · rw [(broadcastReceive_frame _ _).2]
+        · rw [(messageReceive_frame _ _).2]
+    | call id =>
+      dsimp only
+      split
+      · rfl
+      · split <;> exact settle_pid ..
+
+theorem run_pid (O : Oracle) (P : Prog) (evs : List Ev) : ∀ c : Cfg, (run O P c evs).ch.pid = c.ch.pid := by
+  induction evs with
+  | nil => intro c; rfl
+  | cons e es ih =>
+    intro c
+    simp only [run, List.foldl] at ih ⊢
+    rw [ih, step_pid]
+
+theorem create_pid (O : Oracle) (name pid : String) : (create O name pid).ch.pid = pid := by
+  have hfr := announce_frame O (PMF.init name).entered.reverse { pid := pid } []
+  unfold create
+  dsimp only
+  split
+  · exact hfr.1
+  · simp only [subscribe]; exact hfr.1
+
+theorem quiet_failAt (i : Nat) (cls : String) (hc : cls ∈ Gen.toleratedBroadcastFailures) : Quiet (failAt i cls) := by
+  intro j
+  by_cases h : j = i
+  · exact Or.inr ⟨cls, by simp [failAt, h], by simpa [tolerated] using hc⟩
+  · exact Or.inl (by simp [failAt, h])
 
 end Comms
